@@ -230,13 +230,16 @@ class WindowedWarmUpStager(Stager):
         if n_warm_up_iter > 0:
             warm_up_trace_funcs = trace_funcs if trace_warm_up else None
             record_stats = trace_warm_up
-            # initial fast adaptation stage
-            sampling_stages["Initial fast adaptive"] = ChainStage(
-                n_iter=n_init_fast_stage_iter,
-                adapters=fast_adapters,
-                trace_funcs=warm_up_trace_funcs,
-                record_stats=record_stats,
-            )
+            # initial fast adaptation stage - skipped if it would have no iterations as
+            # adapters initialized and finalized without any updates in between would
+            # reset the adapted parameters to their initial values
+            if n_init_fast_stage_iter > 0:
+                sampling_stages["Initial fast adaptive"] = ChainStage(
+                    n_iter=n_init_fast_stage_iter,
+                    adapters=fast_adapters,
+                    trace_funcs=warm_up_trace_funcs,
+                    record_stats=record_stats,
+                )
             # growing size slow adaptation windows
             n_window_iter = n_init_slow_window_iter
             slow_windows = []
@@ -266,13 +269,14 @@ class WindowedWarmUpStager(Stager):
                         record_stats=record_stats,
                     )
                 )
-            # final fast adaptation stage
-            sampling_stages["Final fast adaptive"] = ChainStage(
-                n_iter=n_final_fast_stage_iter,
-                adapters=fast_adapters,
-                trace_funcs=warm_up_trace_funcs,
-                record_stats=record_stats,
-            )
+            # final fast adaptation stage - skipped if it would have no iterations
+            if n_final_fast_stage_iter > 0:
+                sampling_stages["Final fast adaptive"] = ChainStage(
+                    n_iter=n_final_fast_stage_iter,
+                    adapters=fast_adapters,
+                    trace_funcs=warm_up_trace_funcs,
+                    record_stats=record_stats,
+                )
         # main non-adaptive stage
         if n_main_iter > 0:
             sampling_stages["Main non-adaptive"] = ChainStage(
